@@ -58,6 +58,17 @@ structure FieldSpec where
   res : Res
   deriving Repr, Inhabited
 
+/-- balanced search tree over field ids: the kernel looks a field up in ~10 steps instead of
+    walking a 500-element list (generated next to `fields`; `ftree_agrees` ties the two) -/
+inductive FTree
+  | leaf
+  | node (l : FTree) (k : Nat) (v : FieldSpec) (r : FTree)
+  deriving Repr, Inhabited
+
+def FTree.get? : FTree → Nat → Option FieldSpec
+  | .leaf, _ => none
+  | .node l k v r, i => if i < k then l.get? i else if k < i then r.get? i else some v
+
 /-- Repeat count of a group: literal, or the value of an attribute (`nest` leading group
     indices are appended to the attribute name, the `"+n"` convention). -/
 inductive Count
@@ -94,7 +105,11 @@ structure Specials where
 
 /-- Everything the translator extracts from pyrtcm's table modules. -/
 structure Tables where
-  fields : Array FieldSpec
+  fields : List FieldSpec
+  /-- number of data fields (a literal, so that the kernel need not count); `nf = fields.length` is checked -/
+  nf : Nat
+  /-- the same table as a search tree keyed by field id -/
+  ftree : FTree
   /-- derived attribute names; `fields.size + i` is the id of `derived[i]`:
       NSat, NSig, NCell, _NHarmCoeffC, _NHarmCoeffS (in this order) -/
   derived : List Label
@@ -127,15 +142,18 @@ structure Tables where
   encDeflate : Nat
 
 namespace Tables
-def nFields (T : Tables) : Nat := T.fields.size
-def fidNSat (T : Tables) : Nat := T.fields.size
-def fidNSig (T : Tables) : Nat := T.fields.size + 1
-def fidNCell (T : Tables) : Nat := T.fields.size + 2
-def fidNHarmC (T : Tables) : Nat := T.fields.size + 3
-def fidNHarmS (T : Tables) : Nat := T.fields.size + 4
+/-- `RTCM_DATA_FIELDS[name of fid]` -/
+def field? (T : Tables) (fid : Nat) : Option FieldSpec := T.ftree.get? fid
+def nFields (T : Tables) : Nat := T.nf
+def fidNSat (T : Tables) : Nat := T.nf
+def fidNSig (T : Tables) : Nat := T.nf + 1
+def fidNCell (T : Tables) : Nat := T.nf + 2
+def fidNHarmC (T : Tables) : Nat := T.nf + 3
+def fidNHarmS (T : Tables) : Nat := T.nf + 4
 def fieldName (T : Tables) (fid : Nat) : Label :=
-  if h : fid < T.fields.size then T.fields[fid].name
-  else (T.derived[fid - T.fields.size]?).getD [63]
+  match T.field? fid with
+  | some f => f.name
+  | none => (T.derived[fid - T.nf]?).getD [63]
 end Tables
 
 end Rtcm
